@@ -258,14 +258,14 @@ func genC19(g *Rng, tier string) *Plan {
 		case 5:
 			st = c19Step{Op: "delete_shortcut", Sc: Pick(g, c19Scs...)}
 		case 6:
-			st = c19Step{Op: "login", User: Pick(g, c19Users...), Pw: Pick(g, "right", "right", "right", "wrong", "empty", "other", "right+tail", "prefix72"), Cookie: Pick(g, "", "", "", "forged", "slot"), Slot: g.Intn(3)}
+			st = c19Step{Op: "login", User: Pick(g, c19Users...), Pw: Pick(g, "right", "right", "right", "wrong", "empty", "other", "right+tail", "prefix72"), Cookie: Pick(g, "", "", "", "forged", "slot", "forged-short", "forged-odd"), Slot: g.Intn(3)}
 		case 7:
-			st = c19Step{Op: "sso", SP: g.Intn(c19NSP), Cookie: Pick(g, "slot", "slot", "slot", "none", "forged"), Slot: g.Intn(3), Bind: Pick(g, "redirect", "post")}
+			st = c19Step{Op: "sso", SP: g.Intn(c19NSP), Cookie: Pick(g, "slot", "slot", "slot", "slot", "none", "forged", "forged-short", "forged-7", "forged-8", "forged-long", "forged-odd"), Slot: g.Intn(3), Bind: Pick(g, "redirect", "post")}
 			if g.Bool(0.25) {
 				st.Cookie, st.User, st.Pw = "none", Pick(g, c19Users...), Pick(g, "right", "wrong", "empty", "other")
 			}
 		case 8:
-			st = c19Step{Op: "shortcut", Sc: Pick(g, c19Scs...), Cookie: Pick(g, "slot", "slot", "slot", "none", "forged"), Slot: g.Intn(3), Relay: Pick(g, "", "deep")}
+			st = c19Step{Op: "shortcut", Sc: Pick(g, c19Scs...), Cookie: Pick(g, "slot", "slot", "slot", "slot", "none", "forged", "forged-short", "forged-7", "forged-long", "forged-odd"), Slot: g.Intn(3), Relay: Pick(g, "", "deep")}
 		case 9:
 			st = c19Step{Op: "delete_session", Slot: g.Intn(3)}
 		case 10:
@@ -444,6 +444,16 @@ func (w *c19World) liveSession(st c19Step) (*mSession, string) {
 	switch st.Cookie {
 	case "forged":
 		return nil, "Zm9yZ2VkLXNlc3Npb24taWQ="
+	case "forged-short":
+		return nil, "abc"
+	case "forged-7":
+		return nil, "1234567"
+	case "forged-8":
+		return nil, "12345678"
+	case "forged-long":
+		return nil, strings.Repeat("Zm9yZ2Vk", 600)
+	case "forged-odd":
+		return nil, "../users/u0"
 	case "slot":
 		if i := w.slot(st.Slot); i >= 0 {
 			s := &w.sessions[i]
@@ -897,7 +907,7 @@ func (w *c19World) step(st c19Step, res *Result) (expected, observed c19Outcome,
 					exp = stored.ExpireTime.Sub(c19Epoch).Milliseconds()
 				}
 				snap := w.users[st.User].A
-				if _, forged := w.liveSession(c19Step{Cookie: "forged"}); c.Value == forged {
+				if _, presented := w.liveSession(st); strings.HasPrefix(st.Cookie, "forged") && c.Value == presented {
 					// the new session got the ID a client chose: whoever planted that cookie now holds the session
 					observed = c19Outcome{Class: "SESSION_ID_FROM_CLIENT", Detail: c.Value}
 				}
